@@ -22,7 +22,7 @@ ASSUMPTIONS = ['virtual time: computation takes no time, so the exact stratum de
 PROBES = ['endless_source', 'two_sources_alive', 'wall_clock_stepped_while_sources_run']
 PLAN = {
   'quick': {'strata': {'exact': 2500, 'jitter': 1500}, 'wall_s': 300, 'chunk': 50, 'min_conclusive': 800},
-  'thorough': {'strata': {'exact': 70000, 'jitter': 40000}, 'wall_s': 900, 'chunk': 100, 'min_conclusive': 8000},
+  'thorough': {'strata': {'exact': 70000, 'jitter': 40000}, 'wall_s': 900, 'chunk': 100, 'min_conclusive': 800},
 }
 PERIODS = [0.1, 0.25, 1, 7, 60]
 
